@@ -4,6 +4,7 @@ CONSTANTS
   GuardZeroRec = TRUE
   Reserved23 = TRUE
   Setups <- SetupsQ
+  MaxSetup = 1
   EmitCases = FALSE
 INVARIANTS Safe Emit
 CHECK_DEADLOCK FALSE
